@@ -980,13 +980,13 @@ class C09(common.Prop):
         calls, final, exc = drive(case)
         if not calls:
             return {'skip': exc or 'rebuild_h_atoms not reached'}
-        if len(calls) != 1:
-            return {'skip': 'rebuild_h_atoms called %d times' % len(calls)}
-        call = calls[0]
+        # more than one call (no current code path does that): the last one produced the molecule that is returned; it
+        # is judged, but not compared with the model
+        call = calls[-1]
         before = call['before']
         # a call the model does not cover (other arguments, aromaticity pass not run) is not COMPARED with the
         # model, but the molecule that comes back is still JUDGED
-        nocorr = (call['args'] != ((), {}) or call['car'] == 'not called'
+        nocorr = (len(calls) != 1 or call['args'] != ((), {}) or call['car'] == 'not called'
                   or not (call.get('car_args', ((), {}))[0] == () and set(call.get('car_args', ((), {}))[1]) == {'strict'}
                           and isinstance(call['car_args'][1]['strict'], bool)))
         if not in_table(before):
